@@ -23,7 +23,7 @@ func run(c *hl.Ctx) error {
 	}
 	g := &lay.Gen{R: c.Rand()}
 	var jobs []lay.Job
-	nProg := lay.DevN(c.Pick(600, 8000))
+	nProg := lay.DevN(c.Pick(900, 8000))
 	weights := []string{"core", "styled", "styled", "grid", "grid", "near", "grid", "nested", "nested", "seq", "deep", "boards"}
 	for i := 0; i < nProg; i++ {
 		p := weights[i%len(weights)]
